@@ -21,7 +21,7 @@ def leaf_wire(x):
     if isinstance(x, (bool, float)) or type(x).__name__ == "Decimal":
         # any other scalar is written as its str(): for the model it is that text
         return "t" + cps(str(x))
-    raise ValueError("leaf %r not modelled" % (x,))
+    return "x(" + repr(x).replace(" ", "_")[:100] + ")"
 
 
 def field_wire(f):
@@ -29,7 +29,7 @@ def field_wire(f):
         if f and all(isinstance(x, list) for x in f):
             return "r(" + ";".join(",".join(leaf_wire(y) for y in x) for x in f) + ")"
         if any(isinstance(x, list) for x in f):
-            raise ValueError("mixed list not modelled")
+            return "x(" + repr(f).replace(" ", "_")[:200] + ")"       # not a value the decoder can produce
         return "c(" + ",".join(leaf_wire(x) for x in f) + ")"
     return leaf_wire(f)
 
